@@ -74,35 +74,86 @@ pub fn scan(root: &Path) -> Result<Vec<Site>, String> {
     if files.len() < 50 {
         return Err(format!("only {} source files found under {} — wrong repo root?", files.len(), root.display()));
     }
-    let derive_re = regex::Regex::new(r"(?s)derive\s*\(([^)]*)\)").unwrap();
-    let decl_re = regex::Regex::new(r"(?m)^\s*(?:pub(?:\([a-z:]+\))?\s+)?(?:struct|enum|union)\s+(\[<[^>]*>\]|[A-Za-z_][A-Za-z0-9_]*)").unwrap();
-    let impl_re = regex::Regex::new(r"(?m)^\s*impl\s*(?:<[^{]*?>)?\s*(?:[A-Za-z_:]+::)?((?:Serialize|Deserialize)(?:<[^>]*>)?)\s+for\s+([A-Za-z_][A-Za-z0-9_]*)").unwrap();
     let mut sites = Vec::new();
     for f in &files {
         let raw = std::fs::read_to_string(f).map_err(|e| format!("{}: {}", f.display(), e))?;
-        let src = strip_comments(&raw);
         let rel = f.strip_prefix(root).unwrap().to_string_lossy().to_string();
-        for m in derive_re.captures_iter(&src) {
-            let list = m.get(1).unwrap().as_str();
-            let has = list.split(|c: char| !(c.is_alphanumeric() || c == '_')).any(|t| t == "Serialize" || t == "Deserialize");
-            if !has {
-                continue;
-            }
-            let end = m.get(0).unwrap().end();
-            let line = src[..m.get(0).unwrap().start()].matches('\n').count() + 1;
-            let ty = match decl_re.captures(&src[end..]) {
-                Some(c) => c.get(1).unwrap().as_str().to_string(),
-                None => return Err(format!("{}:{}: derive(Serialize..) without a following type declaration", rel, line)),
-            };
-            sites.push(Site { file: rel.clone(), line, ty });
-        }
-        for m in impl_re.captures_iter(&src) {
-            let line = src[..m.get(0).unwrap().start()].matches('\n').count() + 1;
-            sites.push(Site { file: rel.clone(), line, ty: format!("impl {} for {}", m.get(1).unwrap().as_str(), m.get(2).unwrap().as_str()) });
-        }
+        scan_source(&rel, &raw, &mut sites)?;
     }
     sites.sort();
     Ok(sites)
+}
+
+/// scans one source text
+pub fn scan_source(rel: &str, raw: &str, sites: &mut Vec<Site>) -> Result<(), String> {
+    let derive_re = regex::Regex::new(r"(?s)derive\s*\(([^)]*)\)").unwrap();
+    let decl_re = regex::Regex::new(r"(?m)^\s*(?:pub(?:\([a-z:]+\))?\s+)?(?:struct|enum|union)\s+(\[<[^>]*>\]|[A-Za-z_][A-Za-z0-9_]*)").unwrap();
+    let impl_re = regex::Regex::new(r"(?m)^\s*(?:unsafe\s+)?impl\s*(?:<[^{]*?>)?\s*(?:[A-Za-z_:]+::)?((?:Serialize|Deserialize)(?:<[^>]*>)?)\s+for\s+([A-Za-z_][A-Za-z0-9_]*)").unwrap();
+    let src = strip_comments(raw);
+    for m in derive_re.captures_iter(&src) {
+        let list = m.get(1).unwrap().as_str();
+        let has = list.split(|c: char| !(c.is_alphanumeric() || c == '_')).any(|t| t == "Serialize" || t == "Deserialize");
+        if !has {
+            continue;
+        }
+        let end = m.get(0).unwrap().end();
+        let line = src[..m.get(0).unwrap().start()].matches('\n').count() + 1;
+        let ty = match decl_re.captures(&src[end..]) {
+            Some(c) => c.get(1).unwrap().as_str().to_string(),
+            None => return Err(format!("{}:{}: derive(Serialize..) without a following type declaration", rel, line)),
+        };
+        sites.push(Site { file: rel.to_string(), line, ty });
+    }
+    for m in impl_re.captures_iter(&src) {
+        let line = src[..m.get(0).unwrap().start()].matches('\n').count() + 1;
+        sites.push(Site { file: rel.to_string(), line, ty: format!("impl {} for {}", m.get(1).unwrap().as_str(), m.get(2).unwrap().as_str()) });
+    }
+    Ok(())
+}
+
+/// the scanner run on a synthetic source with every form a serde site can take
+pub fn selftest() -> Result<(), String> {
+    let src = r#"
+/// doc example, must be ignored:
+/// #[derive(Serialize, Deserialize)]
+/// struct InDocComment;
+#[cfg_attr(
+    feature = "serde",
+    derive(Serialize, Deserialize),
+    serde(crate = "serde_crate")
+)]
+#[derive(Debug, Clone)]
+/// docs between attribute and item
+pub struct MultiLine<F: Float> { a: F }
+#[cfg_attr(feature = "serde", derive(Serialize, Deserialize))]
+pub(crate) enum OneLine { A, B }
+#[derive(Clone, Debug, Serialize, Deserialize)]
+#[cfg(feature = "serde")]
+struct Plain(u8);
+#[cfg_attr(feature = "serde", derive(
+    Serialize,
+    Deserialize
+))]
+pub struct SplitDerive;
+#[derive(Debug, Clone, PartialEq)] // derive(Serialize) in a trailing comment
+pub struct NotSerde;
+#[cfg_attr(feature = "serde", derive(Deserialize))]
+pub struct OnlyDe { x: u8 }
+macro_rules! m { ($name:ident) => { paste::item! {
+    #[cfg_attr(feature = "serde", derive(Serialize, Deserialize))]
+    pub struct [<Pls $name>]<F>(F);
+} } }
+impl<F: Float> Serialize for ByHand<F> { }
+impl<'de> serde::Deserialize<'de> for ByHand2 { }
+"#;
+    let mut sites = Vec::new();
+    scan_source("selftest.rs", src, &mut sites)?;
+    let got: Vec<String> = sites.iter().map(|s| s.ty.clone()).collect();
+    let want = ["MultiLine", "OneLine", "Plain", "SplitDerive", "OnlyDe", "[<Pls $name>]", "impl Serialize for ByHand", "impl Deserialize<'de> for ByHand2"];
+    if got != want {
+        return Err(format!("scanner self-test: expected {:?}, got {:?}", want, got));
+    }
+    Ok(())
 }
 
 /// true when `file` (relative) contains the pattern after comment stripping
